@@ -98,6 +98,15 @@ class Renderer:
             return
         self.emit("  " * depth + s + "\n")
 
+    def hdr_eol(self):
+        """end of a header line: in the commented renderings also header lines (the function-name line above all) carry a trailing comment"""
+        if self.comments:
+            lc = "# c" if self.fam == "py" else "// c"
+            if self.comments == "hostile":
+                lc = ("# overwrites dst; noclobber, see #nocl-flag" if self.fam == "py" else "// cheat codes: god, noclip; see #nocl-flag")
+            self.emit("  " + lc)
+        self.emit("\n")
+
     def var(self):
         self.counter += 1
         return f"v{self.counter}"
@@ -273,22 +282,26 @@ class Renderer:
         plines = self.params(f, depth)
         self.emit(plines[0])
         for pl in plines[1:]:
-            self.emit("\n" + ind + pl)
+            self.hdr_eol()
+            self.emit(ind + pl)
         self.emit(post)
         if kind in ("arrow", "asyncarrow"):
             self.emit(" =>")
         self.stack.append(r)
         if fam == "py":
-            self.emit(":\n")
+            self.emit(":")
+            self.hdr_eol()
             self.stmts(f.body, depth + 1)
             # body end = just past the last non-newline char emitted
             text = "".join(self.buf)
             r.body_end_off = len(text.rstrip("\n"))
         else:
             if f.brace == "same":
-                self.emit(" {\n")
+                self.emit(" {")
+                self.hdr_eol()
             else:
-                self.emit("\n" + ind + "{\n")
+                self.hdr_eol()
+                self.emit(ind + "{\n")
             self.stmts(f.body, depth + 1)
             self.emit(ind + "}")
             r.body_end_off = self.pos
